@@ -11,7 +11,7 @@ VERUS_UNITS = {
 # Kani harness groups: `file` is appended (as a child module) to `module` of a scratch copy of /repo.
 KANI_UNITS = {
     'kani': dict(
-        props=['C08', 'C10', 'C11', 'C12', 'C14', 'C17'],
+        props=['C03', 'C04', 'C07', 'C08', 'C10', 'C11', 'C12', 'C14', 'C17'],
         attach={'src/common/deque.rs': 'kani/deque.rs', 'src/unsync/deques.rs': 'kani/unsync_deques.rs', 'src/unsync/cache.rs': 'kani/unsync_cache.rs',
                 'src/common/builder_utils.rs': 'kani/builder_utils.rs', 'src/common.rs': 'kani/common.rs'},
         flags=['-Z', 'stubbing'], jobs=8,
@@ -21,15 +21,21 @@ KANI_UNITS = {
             dict(name='window_push_back', tags=['C08', 'C11', 'C12'], function='Deque::push_back', what='local-window pointer contract of Deque::push_back (empty / tail is head / long list): complete for one operation'),
             dict(name='window_pop_front', tags=['C08', 'C11'], function='Deque::pop_front', what='local-window pointer contract of Deque::pop_front: the head is handed out as a Box exactly once: complete for one operation'),
             dict(name='seq_3x3', tags=['C08', 'C11', 'C12'], function='Deque', bounded='3 nodes x 3 symbolic operations, unwind 10', what='operation sequences on the real list with a structural walker after every step and Drop at the end', timeout=1500),
-            dict(name='deques_tagged_rc', tags=['C08', 'C11'], function='unsync::Deques', bounded='2 entries, 1 symbolic move, unwind 6', what='tagged-pointer region dispatch never reaches unreachable!/panic!; key clones released exactly when nodes are unlinked (Rc::strong_count)', timeout=1500),
+            dict(name='deques_tagged_rc', tags=['C08', 'C11', 'C07'], function='unsync::Deques', bounded='2 entries, 1 symbolic move, unwind 6', what='tagged-pointer region dispatch never reaches unreachable!/panic!; key clones released exactly when nodes are unlinked (Rc::strong_count)', timeout=1500),
             dict(name='weigh_defaults_to_one', tags=['C17'], function='weigh', what='weigh(None, k, v) == 1 for all k, v: complete'),
             dict(name='weigh_calls_the_weigher_once_with_the_pair', tags=['C17', 'C10'], function='weigh', what='weigh(Some(w), k, v) calls the boxed weigher exactly once with (k, v) and returns its result: complete'),
-            dict(name='glue_evict_expired', tags=['C10', 'C08'], function='Cache::evict_expired', what='glue of evict_expired with both loop callees stubbed by recording havoc contracts: counters reduced by exactly what the callees report; scans run iff the policy is configured: complete for the glue'),
+            dict(name='glue_evict_expired', tags=['C10', 'C08', 'C03', 'C04'], function='Cache::evict_expired', what='glue of evict_expired with both loop callees stubbed by recording havoc contracts: counters reduced by exactly what the callees report; scans run iff the policy is configured: complete for the glue'),
             dict(name='ensure_returns_when_within_1000_years', tags=['C17', 'C08'], function='ensure_expirations_or_panic', what='returns normally whenever both durations are <= 1000 years: complete over all Durations'),
             dict(name='ensure_panics_when_beyond_1000_years', tags=['C17'], function='ensure_expirations_or_panic', should_panic=True, cover_must_be_unsat=True, what='panics on EVERY input with a duration > 1000 years (the cover after the call is unreachable): complete over all Durations'),
             dict(name='sketch_capacity_clamps', tags=['C14', 'C08'], function='sketch_capacity', what='sketch_capacity(c) == clamp(c, 128, u32::MAX) for all u64: complete'),
             dict(name='cache_region_roundtrip', tags=['C08'], function='CacheRegion::from', what='tag <-> region bijection on 0..4: complete'),
         ]),
+}
+
+# bounded runtime stand-ins: executable form of the contracts run against the real crate (never counted as proved)
+RT_UNITS = {
+    'rt_unsync': dict(props=['C01', 'C03', 'C04', 'C05', 'C06', 'C07', 'C08', 'C10', 'C11', 'C12', 'C13', 'C14', 'C15'],
+                      attach={'src/unsync/cache.rs': 'rt/unsync_rt.rs'}, test='verif_rt_unsync'),
 }
 
 PROPERTIES = ['C01', 'C02', 'C03', 'C04', 'C05', 'C06', 'C07', 'C08', 'C09', 'C10', 'C11', 'C12', 'C13', 'C14', 'C15', 'C16', 'C17']
